@@ -71,6 +71,7 @@ class Recorder:
         self.ode = ode_mod
         self.fake = fake
         self.step_budget = step_budget
+        self.wall_limit = 30.0 if fake is None else 0.0     # seconds; real integrator runs only
         self.cycles: list[dict] = []
         self.state = None
         self.in_f = False
@@ -167,14 +168,33 @@ class Recorder:
         setattr(mod, "__IntegrationState", RecState)
         mod.RK45 = RecRK45
         self.result, self.error = None, None
+        import signal
+
+        class _WallTime(Exception):
+            pass
+
+        def _alarm(*_):
+            raise _WallTime
+
+        # a single RK45 step that never returns (e.g. a NaN step size inside scipy) is not counted by the step budget:
+        # a wall-clock limit keeps the check from hanging and lets the caller report the termination clause
+        use_alarm = self.wall_limit > 0
+        if use_alarm:
+            old_handler = signal.signal(signal.SIGALRM, _alarm)
+            signal.setitimer(signal.ITIMER_REAL, self.wall_limit)
         try:
             with np.errstate(all="ignore"):
                 self.result = mod.run_ode(np.array(start, dtype=float), eq_w, ctrl_w, params, cdim, steps, max_time)
         except Budget:
             self.error = "budget"
+        except _WallTime:
+            self.error = "walltime"
         except Exception as e:  # noqa: BLE001  (recorded, reported by the caller)
             self.error = f"{type(e).__name__}:{e}"
         finally:
+            if use_alarm:
+                signal.setitimer(signal.ITIMER_REAL, 0)
+                signal.signal(signal.SIGALRM, old_handler)
             setattr(mod, "__IntegrationState", base)
             mod.RK45 = real_rk
         if self.cycles and self.state is not None:
@@ -562,6 +582,12 @@ def run_real(ck: Check, ode_mod, np, ops, expect):
                 f"run_ode raised its time limit above max_time={mt}: per-cycle limits {bounds}"
                 + (" and did not return within the step budget" if rec.error == "budget" else ""), case)
         ck.spec(len(rec.cycles) <= 5, "cycles", f"{len(rec.cycles)} cycles", case)
+        if res is None and rec.error == "walltime":
+            ck.spec(False, "terminates", "run_ode did not return within 30 s although fewer than "
+                    f"{rec.step_budget} integrator steps were taken (one integrator step never returned): the "
+                    "simulation must terminate for every controller, incl. NaN/inf outputs", case)
+            ck.count("real:walltime")
+            continue
         if res is None:
             if rec.error != "budget":
                 ck.spec(False, "no_result", f"run_ode did not return: {rec.error}", case)
